@@ -26,7 +26,7 @@ WEIGHTS = dict(ins=5, data=6, label=2, block=1.5, scope=0.8, macro=0.8, call=2, 
 
 
 def plan(tier: str, seed: int) -> list[dict]:
-    n, per = (16, 95) if tier == "quick" else (64, 630)
+    n, per = (32, 120) if tier == "quick" else (64, 630)
     return [{"seed": seed * 100_000 + i, "n": per} for i in range(n)]
 
 
